@@ -412,3 +412,19 @@ Definition writers_case (pss : list (list cpx)) (order : list Z) (stream : list 
   | Some ps => [1; (if zlist_eqb (concat (map frame ps)) stream then 1 else 0)]
                ++ concat (map enc_res (fst (read_n (length ps) [stream])))
   end.
+
+(* ---------------------------------------------------------------- per-function independence of the router *)
+(* the events that concern function f, and the observations made by receivers of f *)
+Definition rel (f : Z) (e : ev) : bool :=
+  match e with
+  | Arrive (Ok p) => c_fn p =? f
+  | Arrive (Exc _) => false
+  | Recv g => g =? f
+  end.
+Definition obs_of (f : Z) (os : list obs) : list obs := filter (fun o : obs => fst o =? f) os.
+Fixpoint count_pump (script : list sev) : nat :=
+  match script with
+  | [] => O
+  | Pump :: r => S (count_pump r)
+  | SRecv _ :: r => count_pump r
+  end.
